@@ -978,12 +978,8 @@ Proof.
   unfold child_vs_ancestor. intros H Hv Hpos Hn.
   pose proof (first_bad_allowed _ H) as Hall.
   pose proof (res_names_in (qcap s) d Hv Hpos) as Hin.
-  set (g := fun d0 : positive => match nearest_cap (fuel_of Q) Q (qparent s) d0 with
-            | Some (Some up) => if bool_decide (up < rget (new_resource (qcap s)) d0) then VCapAncestor else VAllowed
-            | Some None => VAllowed | None => VFuel end) in *.
-  assert (g d = VAllowed) as Hg.
-  { apply Hall. apply elem_of_list_In, in_map, elem_of_list_In. done. }
-  subst g. simpl in Hg.
+  pose proof (Hall _ (proj2 (elem_of_list_In _ _) (in_map _ _ _ (proj1 (elem_of_list_In _ _) Hin)))) as Hg.
+  cbv beta in Hg.
   destruct (nearest_cap (fuel_of Q) Q (qparent s) d) as [r|] eqn:Hnc; [|done].
   rewrite (nearest_cap_sound Q d Hv _ _ Hn _ _ Hnc) in Hg.
   case_bool_decide as Hlt; [done|]. rewrite rget_cap in Hlt by done. lia.
@@ -1167,7 +1163,8 @@ Proof.
   2:{ destruct (path_has_child _ _ _ _ Hpath x sx Hx eq_refl) as (k & sk & Hk & Hpk).
       exfalso. by eapply children_nil. }
   destruct Hcase as [[Hpos2 ->]|[Hnpos2 Hnear2]].
-  - apply (Hc2 d (x, sx) Hv Hpos2). eapply pn_firstpos; eauto. by apply fp_self.
+  - apply (Hc2 d (x, sx) Hv Hpos2).
+    apply (pn_firstpos Q d n (x, sx) _ Hpath x sx Hx eq_refl). by apply fp_self.
   - apply (nearest_above_n c) in Hnear2; [|done..]. rewrite <- Hsame in Hnear2.
     destruct (pn_nearest Q d n o Ho Hnr _ Hpath) as [Hh Hu].
     destruct (decide (0 < capd o d)) as [Hpo|Hnpo].
@@ -1184,17 +1181,12 @@ Proof.
   destruct (first_bad _) eqn:Hfb; try done.
   pose proof (first_bad_allowed _ Hfb) as Hall.
   pose proof (res_names_in (qcap s) d Hv Hpos) as Hd.
-  set (g := fun d0 : positive =>
-     match foldr (fun c acc => opt_max (subtree_max (fuel_of Q) Q (fst c) (snd c) d0) acc) (Some 0) kids with
-     | Some childMax => if bool_decide (rget (new_resource (qcap s)) d0 < childMax) then VCapChildren else VAllowed
-     | None => VFuel end) in *.
-  assert (g d = VAllowed) as Hg.
-  { apply Hall. apply elem_of_list_In, in_map, elem_of_list_In. done. }
-  subst g. simpl in Hg.
+  pose proof (Hall _ (proj2 (elem_of_list_In _ _) (in_map _ _ _ (proj1 (elem_of_list_In _ _) Hd)))) as Hg.
+  cbv beta in Hg.
   destruct (foldr _ _ kids) as [cm|] eqn:Hcm; [|done].
   case_bool_decide as Hlt; [done|]. rewrite rget_cap in Hlt by done.
   apply (foldr_opt_max_ge (fun c0 : positive * qspec => subtree_max (fuel_of Q) Q (fst c0) (snd c0) d)) in Hcm as [_ Hge].
-  destruct (Hge (k, sk) Hin) as (m' & Hm' & Hle). simpl in Hm'.
+  destruct (Hge (k, sk) Hin) as (m' & Hm' & Hle). cbn [fst snd] in Hm'.
   pose proof (subtree_max_ge Q d Hv k x Hf _ _ _ Hk Hm'). lia.
 Qed.
 
@@ -1266,7 +1258,140 @@ Proof.
     eapply (cu_cap c Q n s (with_alloc (qalloc o) s) (Some o)); eauto.
     intros o' Ho'. inversion Ho'; subst o'.
     destruct (decide (qparent o = qparent s)); [by left|right].
-    destruct (children_of Q n) eqn:E; [done|]. exfalso. apply Hmv. exists o. rewrite E. done.
+    destruct (children_of Q n) eqn:E; [done|]. exfalso. apply Hmv. exists o. done.
   - by apply cap_delete.
   - destruct (Q !! n) as [o|] eqn:Hn; [|done]. eapply cap_agree; eauto.
+Qed.
+
+Lemma nearest_anc_sound Q d : forall par v, nearest Q d par v ->
+  forall fuel r, nearest_anc fuel Q par d = Some r -> r = Some v.
+Proof.
+  intros par v H. induction H as [p ps Hr Hp Hpos|p ps v Hr Hp Hpos H IH]; intros fuel r Hf.
+  - destruct fuel; simpl in Hf; [done|]. rewrite bool_decide_eq_false_2 in Hf by done.
+    rewrite Hp in Hf. fold (capd ps d) in Hf. rewrite bool_decide_eq_true_2 in Hf by done. congruence.
+  - destruct fuel; simpl in Hf; [done|]. rewrite bool_decide_eq_false_2 in Hf by done.
+    rewrite Hp in Hf. fold (capd ps d) in Hf. rewrite bool_decide_eq_false_2 in Hf by done. by eapply IH.
+Qed.
+
+Lemma caps_okb_sound Q : caps_okb Q = true -> CapInv Q.
+Proof.
+  unfold caps_okb. rewrite map_allb_spec. intros H n s d v Hn Hr Hv Hpos Hnear.
+  specialize (H _ _ Hn). apply orb_true_iff in H as [H|H]; [by apply bool_decide_eq_true in H|].
+  rewrite map_allb_spec in H. unfold capd, amount in Hpos |- *.
+  destruct (qcap s !! d) as [cv|] eqn:Hc; [|by cbn in Hpos].
+  change (0 < cv) in Hpos. change (cv <= v).
+  specialize (H _ _ Hc). apply orb_true_iff in H as [H|H].
+  { apply orb_true_iff in H as [H|H]; [by rewrite Hv in H|].
+    apply negb_true_iff, bool_decide_eq_false in H. done. }
+  destruct (nearest_anc (S (S (size Q))) Q (qparent s) d) as [r|] eqn:Hu; [|done].
+  rewrite (nearest_anc_sound Q d _ _ Hnear _ _ Hu) in H. by apply bool_decide_eq_true in H.
+Qed.
+
+(* ================= non-vacuity and the record of the defects ================= *)
+
+Definition cpu_l (v : Z) : list (positive * Z) := [(cpu_d, v)].
+Definition q_ (p : option positive) (c d g : list (positive * Z)) : qspec :=
+  mkQ p 0 (list_to_map c) (list_to_map d) (list_to_map g).
+
+(* root <- 3 (cpu cap 8000, deserved 6000, guarantee 4000) <- 4 <- 5 ; default *)
+Definition ex_cfg : cfg := mkCfg 5 true true.
+Definition ex_Q : queues :=
+  list_to_map [(1, q_ None [] [] []); (2, q_ (Some 1) [] [] []);
+               (3, q_ (Some 1) (cpu_l 8000%Z) (cpu_l 6000%Z) (cpu_l 4000%Z));
+               (4, q_ (Some 3) (cpu_l 4000%Z) (cpu_l 3000%Z) (cpu_l 2000%Z));
+               (5, q_ (Some 4) [] (cpu_l 1000%Z) (cpu_l 1000%Z))]%positive.
+
+Example ex_tree_inv : TreeInv ex_cfg ex_Q /\ CapInv ex_Q.
+Proof. split; [apply tree_okb_sound|apply caps_okb_sound]; by vm_compute. Qed.
+
+(* a history over it in which requests of every kind are admitted and others are refused *)
+Definition ex_history : list req :=
+  [Create 6 (q_ (Some 3) (cpu_l 2000%Z) (cpu_l 2000%Z) (cpu_l 2000%Z));     (* fits exactly next to 4 *)
+   Create 7 (q_ (Some 3) [] (cpu_l 1000%Z) (cpu_l 1000%Z));              (* refused: guarantee sum 5000 > 4000 *)
+   Update 5 (q_ (Some 6) [] (cpu_l 1000%Z) (cpu_l 1000%Z));              (* re-parent the leaf 5 under 6 *)
+   Update 3 (q_ (Some 5) (cpu_l 8000%Z) (cpu_l 6000%Z) (cpu_l 4000%Z));     (* refused: under its own descendant *)
+   Delete 4;                                                        (* 4 has no children any more *)
+   Delete 3]%positive.                                              (* refused: 3 has children *)
+
+Example ex_history_verdicts :
+  verdicts ex_cfg ex_Q ex_history = [VAllowed; VSiblingSum; VAllowed; VCycle; VAllowed; VDelChildren].
+Proof. by vm_compute. Qed.
+
+Example ex_history_wf : Forall req_wf ex_history.
+Proof. repeat constructor; simpl; done. Qed.
+
+(* F3, first half: the validation as it was before the fix admits a.parent := c on
+   root <- a <- b <- c, and the result is not a tree *)
+Definition f3_Q : queues :=
+  list_to_map [(1, q_ None [] [] []); (3, q_ (Some 1) [] [] []); (4, q_ (Some 3) [] [] []);
+               (5, q_ (Some 4) [] [] [])]%positive.
+
+Theorem prefix_cycle_refuted :
+  exists c Q n s, TreeInv c Q /\ 1 <= max_depth c /\ validate_hier_prefix c Q n s = VAllowed /\
+                  ~ ShapeInv c (<[n := s]> Q).
+Proof.
+  exists ex_cfg, f3_Q, 3%positive, (q_ (Some 5%positive) [] [] []).
+  split; [apply tree_okb_sound; by vm_compute|]. split; [done|]. split; [by vm_compute|].
+  intros Hs. eapply (shape_acyclic _ _ 3%positive); [exact Hs|by vm_compute|done|].
+  eapply anc_trans; [eapply (anc_parent _ 3 _ 5)%positive; [by vm_compute|done|done]|].
+  eapply anc_trans; [eapply (anc_parent _ 5 _ 4)%positive; [by vm_compute|done|done]|].
+  eapply (anc_parent _ 4 _ 3)%positive; [by vm_compute|done|done].
+Qed.
+
+Example postfix_cycle_rejected :
+  validate_hier ex_cfg f3_Q 3%positive (q_ (Some 5%positive) [] [] []) = VCycle.
+Proof. by vm_compute. Qed.
+
+(* F3, second half: before the fix the depth of a moved subtree was not checked:
+   max depth 3, root <- 3 <- 4 <- 5 and root <- 6 <- 7; 3.parent := 7 puts 5 at depth 5 *)
+Definition f3b_cfg : cfg := mkCfg 3 false false.
+Definition f3b_Q : queues :=
+  list_to_map [(1, q_ None [] [] []); (3, q_ None [] [] []); (4, q_ (Some 3) [] [] []);
+               (5, q_ (Some 4) [] [] []); (6, q_ (Some 1) [] [] []); (7, q_ (Some 6) [] [] [])]%positive.
+
+Theorem prefix_depth_refuted :
+  exists c Q n s, TreeInv c Q /\ 1 <= max_depth c /\ validate_hier_prefix c Q n s = VAllowed /\
+                  ~ ShapeInv c (<[n := s]> Q).
+Proof.
+  exists f3b_cfg, f3b_Q, 3%positive, (q_ (Some 7%positive) [] [] []).
+  split; [apply tree_okb_sound; by vm_compute|]. split; [done|]. split; [by vm_compute|].
+  intros [_ Hs]. destruct (Hs 5%positive (q_ (Some 4%positive) [] [] [])) as (k & Hk & Hle); [by vm_compute|done|].
+  assert (reach (<[3%positive := q_ (Some 7%positive) [] [] []]> f3b_Q) 5%positive 5) as H5.
+  { eapply (reach_up _ 5 _ 4)%positive; [by vm_compute|done|done|].
+    eapply (reach_up _ 4 _ 3)%positive; [by vm_compute|done|done|].
+    eapply (reach_up _ 3 _ 7)%positive; [by vm_compute|done|done|].
+    eapply (reach_up _ 7 _ 6)%positive; [by vm_compute|done|done|].
+    eapply (reach_top _ 6)%positive; [by vm_compute|done]. }
+  pose proof (reach_fun _ _ _ _ Hk H5). subst k. simpl in Hle. lia.
+Qed.
+
+Example postfix_depth_rejected :
+  validate_hier f3b_cfg f3b_Q 3%positive (q_ (Some 7%positive) [] [] []) = VSubtreeDepth.
+Proof. by vm_compute. Qed.
+
+(* still open (known finding C10-reparent-subtree-capability): an admitted re-parenting of a
+   queue with children can put a descendant under an ancestor with a smaller capability *)
+Definition capx_Q : queues :=
+  list_to_map [(1, q_ None [] [] []); (3, q_ (Some 1) (cpu_l 100000%Z) [] []); (4, q_ (Some 3) [] [] []);
+               (5, q_ (Some 4) (cpu_l 50000%Z) [] []); (6, q_ (Some 1) (cpu_l 10000%Z) [] [])]%positive.
+Definition capx_req : req := Update 4%positive (q_ (Some 6%positive) [] [] []).
+
+Theorem cap_reparent_refuted :
+  exists c Q r, TreeInv c Q /\ CapInv Q /\ 1 <= max_depth c /\ req_wf r /\ moves_subtree Q r /\
+                verdict_of c Q r = VAllowed /\ ~ CapInv (apply_if_admitted c Q r).
+Proof.
+  exists ex_cfg, capx_Q, capx_req.
+  split; [apply tree_okb_sound; by vm_compute|]. split; [apply caps_okb_sound; by vm_compute|].
+  split; [done|]. split; [done|]. split.
+  { exists (q_ (Some 3%positive) [] [] []). split; [by vm_compute|]. split; [done|by vm_compute]. }
+  split; [by vm_compute|].
+  intros H.
+  assert (apply_if_admitted ex_cfg capx_Q capx_req = <[4%positive := q_ (Some 6%positive) [] [] []]> capx_Q) as E by by vm_compute.
+  rewrite E in H.
+  specialize (H 5%positive (q_ (Some 4%positive) (cpu_l 50000) [] []) 2%positive 10000).
+  assert (50000 <= 10000) as Habs; [|lia].
+  apply H; [by vm_compute|done|done|by vm_compute|].
+  eapply (nearest_up _ _ 4%positive); [done|by vm_compute|by vm_compute|].
+  change 10000 with (capd (q_ (Some 1%positive) (cpu_l 10000) [] []) 2%positive).
+  eapply (nearest_here _ _ 6%positive); [done|by vm_compute|by vm_compute].
 Qed.
